@@ -35,6 +35,7 @@ def mk_contract(name: str, d: dict[str, Any]) -> Contract:
                 ls.hints_end = list(ld.get("hints_end", []))
                 ls.hints_after = list(ld.get("hints_after", []))
                 ls.hints_begin = list(ld.get("hints_begin", []))
+                ls.hints_entry = list(ld.get("hints_entry", []))
                 c.loops[int(ordinal)] = ls
         elif k == "mutable_params":
             c.mutable_params = list(v)  # type: ignore[attr-defined]
@@ -53,6 +54,7 @@ class Session:
         self.repo_root = repo_root
         self.V = Verifier()
         self.V.sources = {}
+        self.V.lemma_defs = {}
         self.func_info: list[dict[str, Any]] = []
         self.undecided: list[str] = []
         self.errors: list[str] = []
@@ -159,6 +161,8 @@ def main(argv: list[str]) -> int:
     ap.add_argument("--both", action="store_true")
     ap.add_argument("--dump", default="")
     ap.add_argument("-v", action="store_true")
+    ap.add_argument("--only", default="", help="comma-separated functions/lemma names whose VCs are discharged (dev)")
+    ap.add_argument("--fast", action="store_true", help="z3 only, 5 s (dev)")
     a = ap.parse_args(argv)
     s = Session(a.sidecar, a.repo)
     s.generate()
@@ -166,6 +170,12 @@ def main(argv: list[str]) -> int:
         os.makedirs(a.dump, exist_ok=True)
         for vc in s.V.vcs:
             open(os.path.join(a.dump, vc.name.replace("/", "__").replace(":", "_") + ".smt2"), "w").write(vc.smt2)
+    if a.only:
+        keep = set(a.only.split(","))
+        s.V.vcs = [vc for vc in s.V.vcs if vc.func in keep or vc.func.replace("lemma:", "") in keep]
+    if a.fast:
+        solve.Z3_TIMEOUT_MS = 5000
+        solve.CVC5_TIMEOUT_MS = 1
     s.discharge(both=a.both)
     cl = s.clauses()
     ok = sum(1 for d in cl.values() if d["discharged"])
